@@ -198,7 +198,7 @@ fn departures(v: &VehicleT) -> Vec<f64> {
 
 pub fn run(ctx: &RunCtx) -> Report {
     let mut report = Report::new("exploration");
-    let max_len = ctx.tier.pick(4, 6);
+    let max_len = ctx.tier.pick(4, 7);
     let all = sequences(&tasks(), max_len);
     let nveh = vehicles().len();
     // work items: (vehicle, chunk of sequences)
